@@ -199,7 +199,7 @@ Qed.
 
 (** ** Replacing the top frame; unwinding *)
 Definition vok (v : retval) (rest : list pc) : Prop :=
-  match rest with w :: _ => ign w = true -> noref v = true | [] => True end.
+  match rest with w :: _ => ign w = true -> noref v = true | [] => False end.
 
 Lemma typed_next w rest nx :
   typed (w :: rest) -> is_bottom_frame w = false -> next_typed (runit w) nx = true ->
@@ -219,7 +219,7 @@ Proof.
     cbn. auto.
   - apply andb_prop in Hn as [Hn H4]. apply andb_prop in Hn as [Hn H3]. apply andb_prop in Hn as [H1 H2].
     apply Bool.negb_true_iff in H3. apply typed_push; [exact H1|]. cbn. auto.
-  - split; [exact Ht|]. destruct rest as [|w' rest']; cbn in *; [exact I|].
+  - split; [exact Ht|]. destruct rest as [|w' rest']; cbn in *; [congruence|].
     intros Hw. destruct Hl as [_ Hl]. rewrite (Hl Hw) in Hn. exact Hn.
 Qed.
 
